@@ -358,6 +358,40 @@ def check_defaulted_lengths(ctx, prog, tag, rule="C07.V15.defaulted-unknown-leng
     return n
 
 
+def check_stable_sorts(ctx, prog, tag, crates=("minijinja", "minijinja_contrib"), rule="C07.V16.values-are-sorted-with-a-stable-sort"):
+    """V16 (round 11, seed C07-11): `sort` returns a *stable* ordered permutation (and `groupby`, `dictsort` build on the
+    same helper).  Nothing in the engine sorts template values with an unstable algorithm: a `sort_unstable*` over a
+    collection whose items are or contain `Value`s is reported (ties of distinguishable items - records with equal keys,
+    'a' / 'A' under case folding, 1 / 1.0 - may swap once the list is longer than std's insertion-sort threshold)."""
+    n = 0
+    for f in prog.fns.values():
+        if f.crate not in crates:
+            continue
+        for c in f.calls():
+            last = c.name.rsplit("::", 1)[-1]
+            if not last.startswith("sort"):
+                continue
+            n += 1
+            if not last.startswith("sort_unstable"):
+                continue
+            ty = ""
+            p = op_place(c.args[0]) if c.args and "c" not in c.args[0] else None
+            if p is not None:
+                ty = f.locals[p["l"]].get("s", "")
+            what = ty + " " + (c.full or "")
+            if "Value" not in what and f.kind != "closure":
+                # a generic helper (`safe_sort<T>`): what its callers hand it
+                for cc in prog.calls_of(f.path):
+                    for a in cc.args:
+                        q = op_place(a)
+                        if q is not None:
+                            what += " " + cc.fn.locals[q["l"]].get("s", "")
+                    what += " " + (cc.full or "")
+            ctx.ob(rule, "%s%s|%s" % (tag, f.path, last), "Value" not in what,
+                   "%s sorts %s with %s: equal keys may change their relative order" % (f.path.split("::")[-1], ty or "values", last), f.where(c.bb))
+    return n
+
+
 def check_object_pairs(ctx, prog, tag):
     """V1e: the variant-level domain treats all objects as one representation; inside it `==` dispatches on the pair of
     `ObjectRepr`s (map / sequence / iterable / plain).  `cmp` orders by `kind()` first, so a pair of object
@@ -1132,6 +1166,8 @@ def run(ctx):
         n12 = check_dedup(ctx, prog, tag)
         n14 = check_group_order(ctx, prog, tag)
         n15 = check_defaulted_lengths(ctx, prog, tag)
+        n16 = check_stable_sorts(ctx, prog, tag)
+        ctx.count("C07.V16 sort calls of the engine" + tag, n16)
         ctx.count("C07.V15 defaulted lengths" + tag, n15)
         if prog.has_fn("minijinja::filters::builtins::groupby"):
             ctx.floor("C07.V14 grouping comparisons after a sort" + tag, n14, 1)
@@ -1149,3 +1185,6 @@ def run(ctx):
     cprog = ctx.controls
     check_unknown_lengths(sub5, cprog, [cprog.fn("mjsa_controls::c07::differ")], "control:")
     ctx.control("C07.V5", any(not o[2] for o in sub5.obligations))
+    sub16 = ctx.fresh()
+    check_stable_sorts(sub16, cprog, "control:", crates=("mjsa_controls",))
+    ctx.control("C07.V16", any(not o[2] for o in sub16.obligations))
